@@ -12,7 +12,8 @@ RULE = ("linear residuals with cond <= 1e2, lambda over 1e-3..10, L1 (with/witho
         "in one orthant, argsh/argsprox empty and non-empty (identity of the sentinel objects checked at every call). Reference: "
         "accelerated proximal gradient certified by its own fixed-point residual (L1, L2 unbounded) or multi-start L-BFGS-B with a "
         "KKT certificate (L2 + box); uncertified references are inconclusive cases. Require obj - F* <= 1e-3(1+F*) and success flag. "
-        "Non-trivial = certified instance where dfols evaluated the objective >= n+2 times; distinct by configuration hash")
+        "Non-trivial = certified instance where dfols evaluated the objective >= n+2 times; distinct by configuration hash"
+        ' Second session: a third of the runs un-logged; the box handed over as a projection (pass-through clause only); upper-only bounds in the form bounds=(None, upper).')
 ASSUMPTIONS = ["reference optimum accepted only with a certificate: prox-gradient fixed point residual <= 1e-7(1+F*) or KKT residual <= 1e-6",
                "clip(soft-threshold) is the exact prox of lambda*||x||_1 + box indicator (separable)"]
 N = {"quick": 130, "thorough": 3200}
